@@ -114,6 +114,7 @@ var dbEnvStubs = map[string]string{
 	"os.ReadFile":                                  "verifStubReadFile",
 	"os.WriteFile":                                 "verifStubOSWriteFile",
 	"os.OpenFile":                                  "verifStubOpenFile",
+	"os.Open":                                      "verifStubOpen",
 	"os.Stat":                                      "verifStubStat",
 	"os.CreateTemp":                                "verifStubCreateTemp",
 	"os.Remove":                                    "verifStubRemove",
